@@ -120,7 +120,8 @@ add("C05", "exploration", ["dbh"], dbh("c05", ["--n", "1600"], ["--n", "20000", 
     "exact canonical-dump equality across random maintenance sequences",
     "Generated histories followed by random sequences of reopen (every file-backed variant), optimize_storage, shrink_to_fit, backup (opened as "
     "Db/DbFile/DbMemory), copy, rename; the exact dump (ids, result order, properties in order, aliases, index listing order and contents, "
-    "adjacency order) must equal the dump taken before.",
+    "adjacency order) must equal the dump taken before; small mutating transactions between the maintenance steps (the reference dump is then re-taken) "
+    "so that what is written after a maintenance operation must survive the following ones.",
     "Dumps are taken through public queries only; databases up to a few hundred elements.", "DESIGN.md §6 C05")
 add("C06", "exploration", ["dbh"], dbh("c06", ["--n", "200"], ["--n", "5000", "--len", "100"]),
     "lock-step differential execution on the six database variants",
@@ -236,7 +237,8 @@ def c31_steps(tier):
 add("C31", "exploration", ["srvh"], c31_steps,
     "state-based ordering / exactly-once oracle on the real ClusterStorage compiled into the harness, multi-thread runtime",
     "The server's unmodified sources are compiled together with a driver (generated crate), giving access to the real ServerDb, ClusterLog, DbPool and "
-    "ClusterStorage: uniquely tagged, order-sensitive actions are appended and committed at once, one by one, or replayed by a restart, on runtimes with "
+    "ClusterStorage: uniquely tagged, order-sensitive actions are appended and committed at once, one by one, interleaved, replayed by a restart, or executed completely and then restarted (nothing may run again; some "
+    "actions fail at their place in the log and would succeed if re-executed later), on runtimes with "
     "2-16 workers; the ids the databases assign record the execution order: it must be the log order, each action exactly once, and the state must equal "
     "that of a sequential reference instance.",
     "Single node storage path (the place where committed entries are executed); the HTTP layer and inter-node transport are not part of this check.",
@@ -254,7 +256,8 @@ add("C24", "exploration", ["agdb_server", "srvh"], http_steps("c24", ["--n", "6"
     "The real server binary built from the working tree is started per case in a scratch directory; generated sequences of requests by users with "
     "every relation to the target (owner, admin / write / read role, stranger, server admin, no token, garbage token, logged-out token, token of a "
     "deleted user) cover the database and role endpoints; a model of the documented permission table decides 'permitted'; requests that are not "
-    "permitted must be rejected and leave the admin-API state probe unchanged; role changes and logouts that returned 2xx must be effective at once.",
+    "permitted must be rejected and leave the admin-API state probe unchanged; role changes and logouts that returned 2xx must be effective at once; "
+    "tokens are sent in both spellings the server accepts (plain and double-quoted).",
     "Sequential requests on one node; expiry of tokens by time is exercised in the thorough tier only (one case with the minimum expiry of 60 s); the quick tier covers logout and user deletion.",
     "DESIGN.md §6 C24", replay_bin=SRVH, engine="srvh")
 
@@ -270,6 +273,7 @@ add("C26", "exploration", ["agdb_server", "srvh"], http_steps("c26", ["--n", "4"
     "strace file-system call monitor + canary files + name-to-file collision checker over a real agdb_server process driven through raw sockets",
     "The real server runs under strace -f; hostile database names (separators, dot segments, absolute paths, reserved directory and file names, "
     "percent-encoded forms) are sent through a raw-socket HTTP client to add / backup / copy / rename / restore / clear / delete; every mutating "
-    "file-system call must stay inside the owner's directory, accepted names must map to pairwise distinct files, canaries must stay unchanged.",
+    "file-system call must stay inside the owner's directory, no request may touch a file held by another live database (identities tracked across renames), "
+    "canaries must stay unchanged; the server admin moves and copies databases between two owners and every file of a database must then lie in its current owner's directory.",
     "Linux path semantics only.",
     "DESIGN.md §6 C26", replay_bin=SRVH, engine="srvh")
